@@ -16,9 +16,16 @@
   the spawned goroutine): two requests both pass the check.  Tied by engine `conc` (mix c17): two requests for one
   bucket 0..3000 µs apart (with and without the merge preparation), the maximal number of simultaneously running
   passes is observed through hook points at the begin and end of a pass.
-  Partial (DESIGN.md C17): the touch-set theorem for `gcRun` itself is not proved here.
+  Touch set of the pass itself (`C17_touch`, proved for every reachable bucket and every accepted request): files
+  above the resolved range — in particular the head file receiving appends — and files below the first destination
+  are left exactly as they were; the destination chosen below the range (the single earlier file GC appends to) keeps
+  its old records as a prefix; the destination never lies above the first file of the range.  Not in the model: the
+  age limit is part of `gcCheckEnd` (proved only as "the range lies below the head"; its exact choice is tied by
+  correspondence), pretend mode (the real code returns before the pass: call-order fact `hstore.gc.check`).
 -/
 import GoBeans.Lemmas.GCRange
+import GoBeans.Lemmas.GCFiles
+import GoBeans.Lemmas.GCHistory
 open Store
 
 theorem gcBack_le (b : Bucket) (start : Nat) : ∀ fuel e, gcBack b start fuel e ≤ e := StoreLemmas.gcBack_le b start
@@ -29,6 +36,21 @@ theorem gcScan_le (b : Bucket) (start : Nat) (now days : Int) :
 /-- Every accepted GC request, whatever its arguments, resolves to  start ≤ end < head. -/
 theorem C17_range (cfg : Cfg) (b : Bucket) (g : GcArgs) (s e : Nat)
     (h : gcCheckRange cfg b g = .ok (s, e)) : s ≤ e ∧ e < b.head := StoreLemmas.gcCheckRange_range cfg b g s e h
+
+/-- Touch set: an accepted request (any arguments) on a bucket satisfying the invariants of C01/C02 leaves every file
+    above the resolved range — the head file among them — and every file below the first destination untouched; a
+    destination below the range only grows. -/
+theorem C17_touch (hash : Spec.Key → Nat) (K : Spec.Key → Prop) (cfg : Cfg) (hInj : StoreLemmas.InjOn hash K)
+    {n : Nat} {b : Bucket} {m : Spec.KV} (h : StoreLemmas.HInv hash K cfg n b m) (g : GcArgs) (s e : Nat)
+    (hr : gcCheckRange cfg b g = .ok (s, e)) :
+    (gcRun hash cfg b s e).1.chunks b.head = b.chunks b.head
+    ∧ (∀ i, e < i → (gcRun hash cfg b s e).1.chunks i = b.chunks i)
+    ∧ (∀ i, i < gcDst cfg b s → (gcRun hash cfg b s e).1.chunks i = b.chunks i)
+    ∧ (gcDst cfg b s < s → ∃ ext, ((gcRun hash cfg b s e).1.chunks (gcDst cfg b s)).recs = (b.chunks (gcDst cfg b s)).recs ++ ext)
+    ∧ gcDst cfg b s ≤ s ∧ (gcRun hash cfg b s e).1.head = b.head := by
+  obtain ⟨h1, h2⟩ := C17_range cfg b g s e hr
+  obtain ⟨t1, t2, t3, t4⟩ := StoreLemmas.gcRun_touch hash K cfg hInj h.inv h.lr h.wf h.nz s e h1 h2
+  exact ⟨t2 b.head h2, t2, t1, t3, t4, (StoreLemmas.gcRun_refines hash K cfg hInj h.inv h.lr h.wf h.nz s e h1 h2).2.2.2.2⟩
 
 /-- non-vacuity: a bucket with three flushed files and head 3 (empty) resolves (-1, -1) to [0, 1]: the newest file with data is never collected while the head is empty -/
 def exB : Bucket :=
